@@ -56,7 +56,10 @@ HYP_EXPECT = {
     "ParentDropped": ("params", "MarksPreserved"),
     "NumUpdatesDropped": ("result", "RoundTripFaithful"),
     "FileNameRounds": ("fname", "FileNameInjective"),
-    "ZeroUpdatesSkipsState": ("result", "RoundTripEq"),
+    # "ZeroUpdatesSkipsState" (a decoder that returns a fresh object when num_updates = 0) is no longer refutable: since
+    # /repo's Result.merge ignores a never-updated MISC operand and a rejected update counts nothing, a result with
+    # num_updates = 0 IS in its initial state - the hypothetical has become equivalent on reachable objects (seed C17-m8
+    # is neutralised by those repairs); the flag stays in the specification, it is just not expected to be refuted
     "StaleNameCache": ("savehist", "SaveNameIsCurrent"),
     "IndexClampedToRootCount": ("params", "MarksPreserved"),
 }
